@@ -1529,8 +1529,62 @@ def select_sites(prog, co):
                         idx = [v for v in walk(a0) if v[0] == "field" and v[2].isdigit() and mentions_upvar(v, "futures")]
                         if idx:
                             polled[int(idx[0][2])] = x.res or ("type:" + str(x.self_ty))
-        out.append({"head": head, "switch": i, "arms": arms, "disabled": disabled, "polled": polled})
+        out.append({"head": head, "switch": i, "arms": arms, "disabled": disabled, "polled": polled, "preconds": _select_preconditions(co, o, head)})
     return out
+
+
+def _select_preconditions(co, o, head):
+    """`branch = fut, if cond => ..` preconditions of the select! whose poll_fn is created in block `head`: {branch index:
+    condition term}.  tokio expands every branch to `if !<cond> { disabled |= 1 << i }` with `true` for branches without one:
+    a branch has a precondition iff the tested condition is not the constant true."""
+    pre = {}
+    for bi, bl in enumerate(co.blocks):
+        if bl.get("cleanup"):
+            continue
+        sh = [s_ for s_ in bl["s"] if s_["k"] == "assign" and s_["rv"]["k"] == "binop" and s_["rv"]["op"] == "Shl"]
+        orr = [s_ for s_ in bl["s"] if s_["k"] == "assign" and s_["rv"]["k"] == "binop" and s_["rv"]["op"] == "BitOr"]
+        if not sh or not orr:
+            continue
+        # this mask-setting block belongs to the select whose head it reaches first (no other poll_fn in between)
+        if head not in co.reachable_from(bi):
+            continue
+        idx = int_of(o.of_operand(sh[0]["rv"]["b"]))
+        one = int_of(o.of_operand(sh[0]["rv"]["a"]))
+        if idx is None or one != 1:
+            continue
+        cands = list(co.preds(bi))
+        hops = 0
+        while cands and all(co.term(p_)["k"] in ("assert", "goto", "falseedge") for p_ in cands) and hops < 4:
+            cands = [q_ for p_ in cands for q_ in co.preds(p_)]          # (the shift's overflow check sits in between)
+            hops += 1
+        for p_ in cands:
+            t_ = co.term(p_)
+            if t_["k"] != "switch":
+                continue
+            c_ = o.of_operand(t_["discr"])
+            neg = 0
+            while c_[0] == "unop" and c_[1] == "Not":
+                c_ = c_[2]
+                neg += 1
+            c_ = strip_identity(c_)
+            if c_[0] == "const" and str(c_[1]) in ("true", "false"):
+                continue
+            pre[idx] = c_
+    return pre
+
+
+def check_no_select_preconditions(ob, prog, co, key, allowed=()):
+    """No arm of the select! loops of `co` is switched off by a condition (`, if cond`): a disabled arm does not see what it
+    exists to see - a closed mailbox / shutdown request, an incoming connection, a finished task - for as long as the
+    condition is false."""
+    sites = select_sites(prog, co)
+    ob.floor(sites, 1, f"select! sites in {co.path}")
+    for s_ in sites:
+        for idx, c_ in sorted(s_["preconds"].items()):
+            if idx in allowed:
+                continue
+            ob.fail("refuted", f"{key}/arm{idx}/precondition", f"select! arm {idx} (polls {str(s_['polled'].get(idx, '?'))[:60]}) is disabled while `{show(c_)[:80]}` is false", co.path, co.loc(s_["head"]))
+    ob.count(len(sites))
 
 
 def arm_words(co, site, idx, call_sym, edge_extra=None, stmt_sym=None):
